@@ -215,12 +215,12 @@ theorem fullDay_row_irrigation (h : fullDay F T P st D = .ok r) :
   rw [e]; rfl
 
 /-- **C02 for the full day**: infiltration + runoff = rain + applied irrigation -/
-theorem fullDay_partition (h : fullDay F T P st D = .ok r) (hrain : 0 ≤ D.rain)
+theorem fullDay_partition (hF : PowSqLaw F) (h : fullDay F T P st D = .ok r) (hrain : 0 ≤ D.rain)
     (hcn : ScsRuns P.fm → 0 < r.water.cn ∧ r.water.cn ≤ 100) :
     r.flux.infl + r.flux.runoff = D.rain + irrApplied P.W D.water r.water := by
   obtain ⟨_, _, _, _, _, _, _, e3, e4, _⟩ := fullDay_rows h
   rw [e3, e4]
-  exact waterDay_partition (fullDay_water h) hrain hcn
+  exact waterDay_partition hF (fullDay_water h) hrain hcn
 
 theorem fullDay_runoff_bounds (h : fullDay F T P st D = .ok r)
     (hP : DayPre F P.W st.cells st.water) (hrain : 0 ≤ D.rain)
@@ -1319,7 +1319,7 @@ theorem runs : ∃ r, fullDay Fq Tq Pq stq Dq' = .ok r ∧ r.growth.dap = 30 ∧
     exact ⟨r, rfl, h⟩
 
 theorem dayPre' : DayPre Fq Pq.W stq.cells stq.water :=
-  ⟨Fq_exp, cells_pre, by norm_num [stq, DayState'.water], fun _ => by norm_num [Pq, Wq]⟩
+  ⟨Fq_exp, Fq_sq, cells_pre, by norm_num [stq, DayState'.water], fun _ => by norm_num [Pq, Wq]⟩
 
 /-- the balance of the concrete full day closes, with positive infiltration and capillary rise -/
 example : ∃ r, fullDay Fq Tq Pq stq Dq' = .ok r ∧ 0 < r.flux.infl ∧ 0 < r.flux.cr ∧
